@@ -216,7 +216,7 @@ def check_intersect(ctx, catch, cells, fine, geom, m, nrc, ncc, relx, rely, fill
         al = allowed_cells(X, Y, m, nrc, ncc, ox, oy)
         groups[al] = groups.get(al, 0) + 1
         u, w = X - ox, Y - oy
-        if (u < 0 or w < 0) and -m < u <= m * ncc and -m < w <= m * nrc:
+        if (u < 0 or w < 0) and -m <= u <= m * ncc and -m <= w <= m * nrc:
             near_lb = True
     nmand = sum(n for al, n in groups.items() if OUT not in al)
     nopt = sum(n for al, n in groups.items() if OUT in al and len(al) > 1)
